@@ -283,8 +283,10 @@ def query_regions(q, forms=None) -> set:
         out.add("disjunction_over_different_variables")
     if mixed_conj_in_disj:
         out.add("disjunction_of_multi_variable_conjunction")
-    if _rule_kinds(q.get("rule") or {}) & {"alternative", "next"} or _rule_max_children(q.get("rule") or {}) > 1:
-        # alternative()/next_rule() branches, or a node with two or more branches of any kind
+    if _rule_kinds(q.get("rule") or {}) & {"alternative", "next"} or _rule_max_children(q.get("rule") or {}) > 1 \
+            or _rule_branch_has_disjunction(q.get("rule") or {}):
+        # alternative()/next_rule() branches, a node with two or more branches of any kind, or a branch whose own
+        # condition contains a disjunction
         out.add("rule_tree_with_alternative_or_next")
     if forms:
         used = set(q.get("sel", [])) | _vars_in(q.get("conds", [])) | _vars_in(q.get("head", [])) | \
@@ -309,6 +311,20 @@ def _ctor_args(q):
             walk(ch["node"])
     walk(q.get("rule") or {})
     return out
+
+
+def _rule_branch_has_disjunction(node):
+    for ch in node.get("children", []):
+        found = []
+
+        def fn(t, under):
+            k = t[0]
+            if (k == "or" and under.count("not") % 2 == 0) or (k == "and" and under.count("not") % 2 == 1):
+                found.append(1)
+        _walk(ch.get("conds", []), fn)
+        if found or _rule_branch_has_disjunction(ch["node"]):
+            return True
+    return False
 
 
 def _rule_max_children(node):
